@@ -11,6 +11,10 @@
 (* configuration), and `in` must agree with whether the read succeeds.     *)
 (* The documented precedence is stated as laws on Fresh: scenario C (fixed *)
 (* temperature) ignores the `temp` feature.                                *)
+(* The temporary feature set (one version number) also holds temporary     *)
+(* features named like two computed features (time, area_ratio): a         *)
+(* temporary feature takes precedence over a computed one of the same      *)
+(* name, whether or not that one was read before (law tempShadows).        *)
 (* Nothing about hashes, caches or priorities appears here.                *)
 (***************************************************************************)
 EXTENDS Integers, Sequences, FiniteSets
@@ -57,6 +61,7 @@ AInit == /\ cfg \in Presets /\ temp \in {0} \cup TempVers
 Observe(obs) ==
     [cfg |-> cfg', temp |-> temp', observe |-> obs,
      scenario |-> Scenario(cfg', temp'),
+     tempShadows |-> temp' # 0,
      cIgnoresTemp |-> (cfg'["lut"] # "absent" /\ cfg'["temperature"] # "absent"
                        /\ cfg'["medium"] \notin {"absent", "other"} /\ temp' # 0)]
 
